@@ -26,6 +26,8 @@ struct Shapes<'c> {
     /// multi: every operand position may be nested (random mode); otherwise one position
     multi: bool,
     uniq: usize,
+    /// depth of the outermost shape
+    top_d: usize,
 }
 
 fn prelude() -> Vec<E> {
@@ -110,7 +112,17 @@ impl<'c> Shapes<'c> {
             let p = self.c.pick(tys.len() + 1);
             (0..tys.len()).map(|i| i + 1 == p).collect()
         };
-        tys.iter().zip(nested.iter()).map(|(t, n)| self.traced(*t, d, *n)).collect()
+        // at most one operand is a bare literal (no marker, no effect): a compiler that treats
+        // a literal operand specially must still evaluate the other operands as often as before
+        // (enumeration: only in the outermost shape and only when no operand is nested, or the
+        // space multiplies beyond what a quick tier can walk; random mode: anywhere)
+        let allowed = self.multi || (d == self.top_d && nested.iter().all(|n| !*n));
+        let bare = if tys.is_empty() || !allowed { 0 } else { self.c.pick(tys.len() + 1) };
+        tys.iter()
+            .zip(nested.iter())
+            .enumerate()
+            .map(|(i, (t, n))| if i + 1 == bare && matches!(t, Ty::Int | Ty::Bool | Ty::Null) && !*n { self.base(*t) } else { self.traced(*t, d, *n) })
+            .collect()
     }
 
     fn shape(&mut self, ty: Ty, d: usize) -> E {
@@ -360,7 +372,7 @@ fn build(c: &mut dyn Choose, depth: usize, multi: bool) -> Prog {
     let context = c.pick(5);
     let mut rec = Recorder { inner: c, log: vec![] };
     let (e, ty) = {
-        let mut s = Shapes { c: &mut rec, k: 0, multi, uniq: 0 };
+        let mut s = Shapes { c: &mut rec, k: 0, multi, uniq: 0, top_d: depth };
         let ty = [Ty::Int, Ty::Bool, Ty::Null, Ty::Arr, Ty::Obj][s.c.pick(5)];
         (s.shape(ty, depth), ty)
     };
@@ -380,7 +392,7 @@ fn build(c: &mut dyn Choose, depth: usize, multi: bool) -> Prog {
         _ => {
             let decoy = |k0: i32, log: &Vec<usize>| {
                 let mut rp = Replayer { log: log.clone(), pos: 0 };
-                let mut s = Shapes { c: &mut rp, k: k0, multi, uniq: 0 };
+                let mut s = Shapes { c: &mut rp, k: k0, multi, uniq: 0, top_d: depth };
                 let ty = [Ty::Int, Ty::Bool, Ty::Null, Ty::Arr, Ty::Obj][s.c.pick(5)];
                 s.shape(ty, depth)
             };
@@ -444,7 +456,7 @@ impl Property for C13 {
         true
     }
     fn rule(&self) -> String {
-        "cases: (enumerated) every expression shape of depth 1 and every depth-2 shape with one nested operand position, over {binary operator, calls with 0-3 arguments, method call, operator on an object, object with parent and 0-3 fields, array(size, simple), array(size, compound) and array(size, counting initializer) with size 0-3, index read, index write, field read, field write, let, assignment, if with/without else, counted while (condition traced), print with 0-3 arguments, block}, every operand position holding a self-identifying side effect (tr(k, v) or begin print(\"<k>\"); v end), including positions whose value is discarded; (random) the same shapes to depth 4 with several nested positions. oracle: the reference semantics' output = the marker sequence (order and multiplicity) and the printed result. non-trivial: >=3 traced operand evaluations; distinct by source".into()
+        "cases: (enumerated) every expression shape of depth 1 and every depth-2 shape with one nested operand position, over {binary operator, calls with 0-3 arguments, method call, operator on an object, object with parent and 0-3 fields, array(size, simple), array(size, compound) and array(size, counting initializer) with size 0-3, index read, index write, field read, field write, let, assignment, if with/without else, counted while (condition traced), print with 0-3 arguments, block}, every operand position (but at most one, which may be a bare literal) holding a self-identifying side effect (tr(k, v) or begin print(\"<k>\"); v end), including positions whose value is discarded; (random) the same shapes to depth 4 with several nested positions. oracle: the reference semantics' output = the marker sequence (order and multiplicity) and the printed result. non-trivial: >=3 traced operand evaluations; distinct by source".into()
     }
     fn random_cases(&self, tier: Tier) -> u64 {
         tier.pick(250_000, 4_000_000)
